@@ -156,10 +156,12 @@ fn format_variant(
             ),
         },
         (false, Tagged::Internally { tag }) => match variant_type.inline_flattened {
-            Some(_) => {
+            // a struct variant carries the tag as its first property - unless `as`/`type` on the
+            // variant replaced that struct body
+            Some(_) if variant_attr.type_as.is_none() && variant_attr.type_override.is_none() => {
                 quote! { #parsed_ty }
             }
-            None => match &variant.fields {
+            _ => match &variant.fields {
                 Fields::Unnamed(unnamed) if unnamed.unnamed.len() == 1 => {
                     let field = &unnamed.unnamed[0];
                     let field_attr = FieldAttr::from_attrs(&unnamed.unnamed[0].attrs)?;
